@@ -44,6 +44,7 @@ def draw_knobs(rng, cfg):
     k["p_gil"] = rng.choice([0.3, 0.6, 0.9])
     k["repeat_rate"] = rng.choice([0.0, 0.1, 0.25])
     k["fine_m2"] = rng.random() < 0.45
+    k["ctor_storm"] = rng.random() < 0.2
     return k
 
 
@@ -84,6 +85,21 @@ def _thread_op(rng, at, knobs, shared, own, operator, all_ops=None, me=None, slo
             return {"op": "cache_configure", "args": [], "kwargs": kw}
         return {"op": "cache_info", "args": []}
     live = list(shared) + list(own)
+    if knobs.get("ctor_storm") and rng.random() < 0.7:
+        # constructor storm: every thread parses / builds *fresh* strings (never seen before, so every
+        # call misses the string-keyed LRUs) whose hosts, users and ports come from the same tiny pools
+        # (so the netloc-, host- and IDNA-keyed helpers and anything "remembering the last one" collide)
+        if rng.random() < 0.8:
+            s_ = at.compose(rng)
+            if rng.random() < 0.3:
+                s_ = at.mutate_text(rng, s_)
+            op = {"op": "new", "args": [s_], "kwargs": {}}
+        else:
+            op = W.gen_constructor(rng, at, live)
+        order = list(W.ALL_READS)
+        rng.shuffle(order)
+        op["obs"] = order
+        return op
     if all_ops and rng.random() < knobs.get("repeat_rate", 0.0):
         # re-issue an earlier derivation verbatim: through the LRUs it returns the *same object*
         # another thread may be holding (shared-by-cache objects, not only shared-by-pool ones)
@@ -381,7 +397,8 @@ def zy_sweep_seed(seed, cfg):
     cfg = dict(cfg)
     force = dict(cfg.get("force") or {})
     rng = C.run_rng(seed ^ 0xABCDEF)
-    force.update({"nthreads": 2, "ops_per_thread": rng.choice([1, 1, 2]), "sync_start": rng.random() < 0.7, "operator": rng.random() < 0.15,
+    force.update({"nthreads": 2, "ops_per_thread": rng.choice([1, 1, 2]), "sync_start": rng.random() < 0.6, "operator": rng.random() < 0.15,
+                  "ctor_storm": rng.random() < 0.3,
                   "granularity": rng.choice(["line", "line", "ins"]), "fine_m2": False, "long_rate": 0.0, "same_object_bias": 0.95,
                   "repeat_rate": 0.25})
     cfg["force"] = force
